@@ -392,6 +392,9 @@ fn module_text(cases: &[Case], k: usize, with_values: bool) -> Vec<String> {
         match n % 10 {
             3 => s.push_str("-- first line a/*/b }\n-- second */ line {\n"),
             7 => s.push_str("/* outer /* nested */ still\n outer } */\n"),
+            // continuation lines that begin in column one / directly behind the dashes
+            5 => s.push_str("--first line\n--Old ::= SEQUENCE { a INTEGER\n--\tb BOOLEAN\n"),
+            9 => s.push_str("/* a block\nOld ::= SEQUENCE {\n\ttab [0] NULL\nlast line */\n"),
             _ => {}
         }
         s.push_str(&format!("{} ::= {}\n", c.name, commented(c)));
